@@ -293,7 +293,7 @@ def run_case(case):
                     fails.append({'clause': clause, 'site': site, 'what': what, 'load': li})
 
             # which document must have been loaded?
-            expect_doc, expect_err = None, False
+            expect_doc, expect_err, expect_incomplete = None, False, False
             judged = True
             if is_zip:
                 zf = ld['zip_filename']
@@ -317,6 +317,10 @@ def run_case(case):
                             expect_doc = k[1]
                         else:
                             expect_err = True
+                            # no member with the suffix at all (empty archive, auxiliary files only,
+                            # directories only): "an archive without a document is reported as such"
+                            if not any(n.lower().endswith('.dae') for n in member_names):
+                                expect_incomplete = True
             else:
                 expect_doc = disk_kind[target][1]
             if judged:
@@ -325,6 +329,10 @@ def run_case(case):
                         fail('no-document', 'zip', 'an archive without a (selectable) document loaded successfully')
                     elif not 1 <= code <= 6:
                         fail('no-document', 'zip:raw-exception', 'an archive without a document raised a non-DaeError (code %d)' % code)
+                    elif expect_incomplete and code != 1:
+                        fail('no-document', 'zip:not-reported-as-such',
+                             'an archive with no .dae member at all (%d members) is not reported as "no document in archive" '
+                             '(DaeIncompleteError) but with exception code %d' % (len(member_names), code))
                 else:
                     if code != 0:
                         fail('same-model', '%s:load-failed' % ('zip' if is_zip else ld['src']),
